@@ -26,7 +26,7 @@ for p in props:
     checks.append(c)
 man = {
     "version": 1,
-    "setup_cmd": "./vcheck build plain asan tsan",
+    "setup_cmd": "./vcheck build plain asan tsan autop autoz",
     "hooks": {
         "guard": "LIBBIDIB_VERIF",
         "enable": "no source hooks: the library is built from /repo's working tree and observed through link-time interposition (-Wl,--wrap) and textual inclusion of four translation units (fw/w_*.c); LIBBIDIB_VERIF is reserved and currently guards nothing in /repo",
